@@ -155,6 +155,8 @@ Spec == Init /\ [][Next]_vars
 
 \* ---- properties
 NoReliableSkipped == \A m \in skipped : Limited(m)
+\* negative control: print the counterexample's history so that it can be replayed on the code
+NoReliableSkippedP == NoReliableSkipped \/ (PrintT(<<"BEHAVIOUR", ToJson(ops)>>) /\ FALSE)
 FwdCoversOnlyAbandoned == \A p \in fnet : \A t \in (p.from + 1)..p.newcum : AbandonedChunk(t, aband)
 FwdNamesOnlyAbandoned == \A p \in fnet : \A e \in p.skips : \E m \in aband : Sid(m) = e[1] /\ Ssn(m) = e[2]
 RexmitCap == \A t \in 1..K : Limited(MsgOf(t)) => nsent[t] <= RL + 1
